@@ -1392,8 +1392,9 @@ def pixel_oracle(ctx, up, body, bbox, size, up_res, extent, to_up, rep, sig, tol
         worst = float(np.max(np.where(content, np.maximum((distx - slack) / np.maximum(tx, 1e-300), (disty - slack) / np.maximum(ty, 1e-300)), 0))) * tol_px
     if bad.any():
         j, i = [int(v[0]) for v in np.nonzero(bad)]
-        # known finding: two or more sub-pixel truncation stages add up (each < 1 px, same direction)
-        if stages >= 2 and worst <= 0.5 + stages + 0.01:
+        # known finding: sub-pixel truncation stages and resampling add up to more than 1.5 px (each < 1 px, same direction)
+        # (each truncating stage: error in [0, 1) px - sub_extent_error; resampling: 0.5 px + 0.1 px - crop_path_error)
+        if stages >= 1 and worst <= 0.6 + stages:
             fsig = ACCUMULATED
             ctx.count('e2e:accumulated_subpixel_error(known finding)')
         else:
